@@ -1028,6 +1028,14 @@ class Evaluator:
                 return (('unit',), cat(pre, ['star', strip(argv[0]), t]))
         if f == 'error::Error::chain':
             return (('error',), pre)
+        # `core::ptr::from_mut(m)` / `from_ref(m)` of a `MaybeUninit<X>` place: the pointer `m.as_mut_ptr()` / `m.as_ptr()`
+        # yields, typed `*mut MaybeUninit<X>` (every use casts it on)
+        if f in ('core::ptr::from_mut', 'core::ptr::from_ref') and len(argv) == 1 and e.get('ga') and 'MaybeUninit<' in str(e['ga'][0]):
+            nm = 'as_mut_ptr' if f.endswith('from_mut') else 'as_ptr'
+            val = ('call', nm, 'core::mem::MaybeUninit::<T>::' + nm, argv, tuple(e['ga']), None, e.get('loc'))
+            if nm == 'as_mut_ptr':
+                return (val, cat(pre, ['MUTCALL', nm, 'core::mem::MaybeUninit::<T>::' + nm, [strip(a) for a in argv], e.get('loc'), tuple(e['ga'])]))
+            return (val, pre)
         # ------------------------------------------------ panics
         if f.startswith(('core::panicking::', 'std::rt::begin_panic', 'core::panicking::assert_failed')) or name in (
                 'panic', 'panic_fmt', 'assert_failed', 'unreachable_display', 'panic_explicit'):
@@ -1459,6 +1467,13 @@ def _simplify_bool(c):
                 if c[1] == 'Or':
                     return a if a[1] else b
                 return b if a[1] else a
+    # `x <= x + n` / `x + n >= x` for a length n: holds whenever the sum exists (an overflowing sum is its own panic site)
+    if isinstance(c, tuple) and c and c[0] == 'bin' and c[1] in ('Le', 'Ge') and len(c) >= 4:
+        lo, hi = (strip(c[2]), strip(c[3])) if c[1] == 'Le' else (strip(c[3]), strip(c[2]))
+        if isinstance(hi, tuple) and hi and hi[0] == 'bin' and hi[1] == 'Add':
+            for x, n in ((strip(hi[2]), strip(hi[3])), (strip(hi[3]), strip(hi[2]))):
+                if x == lo and isinstance(n, tuple) and n and ((n[0] == 'call' and n[1] == 'len') or (n[0] == 'lit' and isinstance(n[1], int) and not isinstance(n[1], bool) and n[1] >= 0)):
+                    return ('lit', True, 'bool', ())
     return c
 
 
